@@ -269,7 +269,7 @@ Proof.
   - unfold setup. destruct (st_pending st); [reflexivity|]. destruct (alookup N.eqb c (st_cid st)); [reflexivity|].
     cbn [st_closing]. destruct (st_closing st); [reflexivity|]. destruct (is_nil id); [reflexivity|].
     match goal with |- context [existing_session ?s id] => set (st1 := s) end.
-    destruct (existing_session st1 id) as [[a b0 c0 [c1|]]|]; [reflexivity| |]; apply retained_setup_finish.
+    destruct (existing_session st1 id) as [[a b0 c0 [c1|]]|]; [reflexivity| |]; rewrite retained_setup_finish; reflexivity.
   - unfold setup_end. destruct (st_pending st) as [p|]; [|reflexivity]. destruct t; [reflexivity|].
     destruct (mem_n (p_old p) (st_closed st)); [apply retained_setup_finish|reflexivity].
   - unfold mark_closed. destruct (mem_n c (st_term st)); reflexivity.
@@ -308,11 +308,11 @@ Proof.
   intros H. unfold retain_update. destruct (m_retain m) eqn:R; [|exact H].
   destruct (is_nil (m_payload m)) eqn:P.
   - induction ret as [|[k v] ret IH]; cbn [aremove]; [reflexivity|].
-    cbn [forallb] in H. apply andb_true_iff in H as [H1 H2].
-    destruct (bytes_eqb (m_topic m) k); [apply IH; exact H2|]. cbn [forallb]. rewrite H1, (IH H2). reflexivity.
+    cbn [forallb fst snd] in H. apply andb_true_iff in H as [H1 H2].
+    destruct (bytes_eqb (m_topic m) k); [apply IH; exact H2|]. cbn [forallb fst snd]. rewrite H1, (IH H2). reflexivity.
   - induction ret as [|[k v] ret IH]; cbn [aset forallb fst snd].
     + rewrite bytes_eqb_refl, R, P. reflexivity.
-    + cbn [forallb] in H. apply andb_true_iff in H as [H1 H2].
+    + cbn [forallb fst snd] in H. apply andb_true_iff in H as [H1 H2].
       destruct (bytes_eqb (m_topic m) k); cbn [forallb fst snd].
       * rewrite bytes_eqb_refl, R, P, H2. reflexivity.
       * rewrite H1, (IH H2). reflexivity.
@@ -327,6 +327,9 @@ Proof.
 Qed.
 
 (* ------------------------------------------------------------------ C11 live copy *)
+Lemma nat_ltb_irrefl n : Nat.ltb n n = false.
+Proof. apply PeanoNat.Nat.ltb_ge. apply le_n. Qed.
+
 Theorem publish_live_copy_ok st c m got :
   wf st ->
   let (r, st') := publish st c m got in live_copy_ok st (OPublish c m got) r st' = true.
@@ -336,14 +339,14 @@ Proof.
   apply forallb_forall. intros [k s] Hin. cbn [fst snd].
   destruct (negb (pub_err st c m) && pub_blk st c m) eqn:Hnb.
   - rewrite publish_unfold, Hnb in E. injection E as _ <-. rewrite (sessions_get st k s W Hin).
-    rewrite Nat.ltb_irrefl. reflexivity.
+    rewrite nat_ltb_irrefl. reflexivity.
   - rewrite Est, (get_session_published st c m got k Hnb), (sessions_get st k s W Hin). cbn [option_map].
     assert (Hd : deliver (pub_err st c m) got k (classify st c m s) m s = s \/
                  deliver (pub_err st c m) got k (classify st c m s) m s = enqueue m s).
     { unfold deliver. destruct (classify st c m s); auto; destruct (pub_err st c m); auto; destruct (mem_key k got); auto. }
-    destruct Hd as [-> | ->]; [rewrite Nat.ltb_irrefl; reflexivity|].
+    destruct Hd as [-> | ->]; [rewrite nat_ltb_irrefl; reflexivity|].
     assert (Q : queue_of m (enqueue m s) = queue_of m s ++ [live_copy m]).
-    { unfold enqueue, queue_of. destruct (use_temp m) eqn:U; cbn [s_tq s_sq]; rewrite U; reflexivity. }
+    { unfold enqueue, queue_of. destruct (use_temp m) eqn:U; cbn [s_tq s_sq]; rewrite ?U; reflexivity. }
     rewrite Q, app_length, rev_app_distr. cbn [length rev app live_copy m_retain m_topic m_payload].
     rewrite !bytes_eqb_refl. destruct (Nat.ltb _ _); reflexivity.
 Qed.
